@@ -9,6 +9,8 @@ import (
 	"fmt"
 	"go/token"
 	"go/types"
+	"reflect"
+	"strings"
 
 	"golang.org/x/tools/go/ssa"
 )
@@ -407,10 +409,45 @@ func (d *deriver) load(addr ssa.Value) []Deriv {
 	return unknownD("load from %T", addr)
 }
 
+// pinnedField: the name the rules know field i of st by. Fields of the command-line option structs are bound to
+// their flag by the struct tag, not by their Go name: a field tagged short:"r" is the root-path option whatever it
+// is called, and the positional arguments are identified by their position. Every other field keeps its name.
+var pinnedByShort = map[string]string{"o": "OutputPath", "f": "OutputFormat", "r": "RootPath", "P": "SkipParent", "v": "Verbose", "V": "Version", "c": "CPUProfile"}
+var pinnedPositional = map[string][]string{"cmd/bkl": {"InputPaths"}, "cmd/bkld": {"BasePath", "TargetPath"}, "cmd/bkli": {"InputPaths"}, "cmd/bklr": {"InputPath"}}
+
+func pinnedField(st *types.Struct, i int) string {
+	f := st.Field(i)
+	if f.Pkg() == nil || !isRepoPkgPath(f.Pkg().Path()) || !strings.HasPrefix(shortPkg(f.Pkg().Path()), "cmd/") {
+		return f.Name()
+	}
+	tag := reflect.StructTag(st.Tag(i))
+	if sh, ok := tag.Lookup("short"); ok {
+		if n, ok := pinnedByShort[sh]; ok {
+			return n
+		}
+	}
+	if _, ok := tag.Lookup("positional-args"); ok {
+		return "Positional"
+	}
+	if _, ok := tag.Lookup("positional-arg-name"); ok {
+		// position among the positional fields of this struct
+		pos := 0
+		for j := 0; j < i; j++ {
+			if _, ok := reflect.StructTag(st.Tag(j)).Lookup("positional-arg-name"); ok {
+				pos++
+			}
+		}
+		if names := pinnedPositional[shortPkg(f.Pkg().Path())]; pos < len(names) {
+			return names[pos]
+		}
+	}
+	return f.Name()
+}
+
 func fieldName(fa *ssa.FieldAddr) string {
 	t := fa.X.Type().Underlying().(*types.Pointer).Elem()
 	st := t.Underlying().(*types.Struct)
-	name := st.Field(fa.Field).Name()
+	name := pinnedField(st, fa.Field)
 	if nt, ok := t.(*types.Named); ok {
 		pk := ""
 		if nt.Obj().Pkg() != nil {
@@ -734,9 +771,10 @@ func (d *deriver) closureParam(fn *ssa.Function, par *ssa.Parameter) []Deriv {
 		found = true
 		site := e.Site.Common()
 		if e.Kind == "extcallback" {
-			if ai, ok := extElemCallback(site); ok {
-				// slices.ContainsFunc(s, f) and friends call f with elements of s
-				out = append(out, strictAll(d.derive(site.Args[ai]))...)
+			if src, ok := extElemSource(site); ok {
+				// slices.ContainsFunc(s, f) and friends call f with elements of s; so does the iterator that
+				// slices.Backward(s) / slices.Values(s) / maps.Values(m) ... returns with its yield function
+				out = append(out, strictAll(d.derive(src))...)
 				continue
 			}
 			out = append(out, Deriv{Unknown: "argument supplied by an external function"})
@@ -924,6 +962,43 @@ func (p *Prog) DeriveAll(v ssa.Value) []Deriv {
 
 // extElemCallback: the external function called at site invokes its callback argument with elements of
 // one of its slice arguments only (and does nothing else with the callback); returns that argument's index.
+// extElemSource: the container whose elements (or keys) the external function called at site hands to its
+// callback argument: the slice argument of the element-wise helpers of package slices, or the argument of the
+// standard iterator constructor whose result is being called with a yield function.
+func extElemSource(site *ssa.CallCommon) (ssa.Value, bool) {
+	if ai, ok := extElemCallback(site); ok {
+		return site.Args[ai], true
+	}
+	if c, ok := site.Value.(*ssa.Call); ok {
+		if name, isIter := stdIteratorConstructor(c.Common()); isIter && len(c.Common().Args) >= 1 {
+			_ = name
+			return c.Common().Args[0], true
+		}
+	}
+	return nil, false
+}
+
+// stdIteratorConstructor: a call of slices.Backward/Values/All or maps.Keys/Values/All: the function value it
+// returns calls its yield argument with elements (keys, values, indices) of the constructor's argument only.
+func stdIteratorConstructor(c *ssa.CallCommon) (string, bool) {
+	sc := c.StaticCallee()
+	if sc == nil {
+		return "", false
+	}
+	o := sc.Origin()
+	if o == nil {
+		o = sc
+	}
+	if o.Pkg == nil {
+		return "", false
+	}
+	switch o.Pkg.Pkg.Path() + "." + o.Name() {
+	case "slices.Backward", "slices.Values", "slices.All", "maps.Keys", "maps.Values", "maps.All":
+		return o.Pkg.Pkg.Path() + "." + o.Name(), true
+	}
+	return "", false
+}
+
 func extElemCallback(site *ssa.CallCommon) (int, bool) {
 	sc := site.StaticCallee()
 	if sc == nil {
